@@ -211,6 +211,15 @@ def run(rep, tier="quick", srcdir=None, only=None):
         rule_OD2(rep, prog, q)
     if want("C05-WR3"):
         rule_WR3(rep, prog)
+    # dispatch_sync through a hierarchy returns after the item ran UNDER every level: the hand-off must carry the waiter down to the bottom queue,
+    # which depends on the role bits following the target (shared with C03)
+    from . import C03
+    if want("C03-MP5"):
+        C03.rule_MP5(rep, prog, q)
+    if want("C03-TB6"):
+        C03.rule_TB6(rep, prog, q)
+    if want("C03-MP9"):
+        C03.rule_MP9(rep, prog, q)
     if want("C05-FK"):
         from .sync_common import rule_futex_key
         rule_futex_key(rep, "C05", prog)
